@@ -298,7 +298,28 @@ def h_spread_maps(ctx, d):
             thr = cf.implied_cds_threshold(target, R, h0)
         except ValueError:
             return
-        ctx.prove("C19.implied_threshold_reprices_the_spread", AND(EQ(cf.cds_spread(thr, R), target), thr >= -10, thr <= -h0), info={"d": d})
+        ctx.prove("C19.implied_threshold_reprices_the_spread", AND(EQ(cf.cds_spread(thr, R), target), thr >= -10, thr <= -h0), info={"d": d},
+                  replay=(replay_implied_threshold, lambda m: {}))
+
+
+def replay_implied_threshold(sc):
+    """real HEM model, real Brent: the threshold implied from a par spread reprices that spread, for several recovery rates"""
+    import rpylib.model.levymodel.mixed.hem as HEM
+
+    model = HEM.HEMModel(HEM.HEMParameters(sigma=0.1, p=0.4, eta1=20.0, eta2=25.0, intensity=3.0))
+    cf = CFM.CFLevyModel(model)
+    out = []
+    for R in (0.4, 0.25, 0.7):
+        target = float(cf.cds_spread(-0.1, R))
+        try:
+            thr = float(cf.implied_cds_threshold(target, R, 0.01))
+        except Exception as e:
+            out.append(f"recovery {R}: implied_cds_threshold({target!r}, {R}, 0.01) raises {type(e).__name__}: {e}")
+            continue
+        back = float(cf.cds_spread(thr, R))
+        if abs(back - target) > 1e-8 * max(1.0, abs(target)) or not (-10 <= thr <= -0.01):
+            out.append(f"recovery {R}: threshold implied from the spread {target!r} is {thr!r}, whose spread is {back!r}")
+    return bool(out), "HEM: " + ("; ".join(out[:2]) if out else "implied thresholds reprice their spreads")
 
 
 def h_cds_payoff(ctx):
